@@ -74,6 +74,9 @@ impl<TX> SendControler<TX> {
 
     fn revise_max_data(&mut self, zero_rtt_rejected: bool, max_data: u64) {
         if zero_rtt_rejected {
+            // nothing sent in the rejected 0-RTT packets was received: the streams send it
+            // again as new data, which is charged again
+            self.sent_data = 0;
             self.max_data = 0;
             self.flow_limited = false;
         }
